@@ -684,4 +684,26 @@ Theorem hpeak_poly : forall c nest b s, good_sv (b_sv b) ->
           (tw (b_sv b) + Gf (bsize c) (length (sv_tree (b_sv b))) (SZ (sv_tree (b_sv b))) (NS (b_sv b))).
 Proof. intros c nest b s Hg. exact (proj2 (bhandle_cost c nest b s Hg)). Qed.
 
+(* handler_fuel, in terms of the state the command arrives in: fuel above the heaviest Message already queued for the
+   session, or above the items the server holds plus a cubic polynomial in (command size, nodes, node weight, sessions),
+   is adequate for every command *)
+Theorem handler_fuel_poly : forall c fuel nest b s, good_sv (b_sv b) -> 2 <= fuel ->
+  Nat.max (qweight (queue_of b s))
+          (tw (b_sv b) + Gf (bsize c) (length (sv_tree (b_sv b))) (SZ (sv_tree (b_sv b))) (NS (b_sv b))) < fuel ->
+  bhandle fx true fuel nest b s c = Some (bhandle_spec fx nest b s c).
+Proof.
+  intros c fuel nest b s Hg Hf2 Hf. apply handler_fuel; [exact Hf2|].
+  eapply Nat.le_lt_trans; [apply hpeak_poly; exact Hg|exact Hf].
+Qed.
+
+(* distinct session ids and distinct node paths survive every dispatched command *)
+Lemma good_sv_cmd : forall b s c, good_sv (b_sv b) -> good_sv (b_sv (bstep_spec fx b (BCmd s c))).
+Proof.
+  intros b s c Hg. cbn [bstep_spec]. destruct (get_session (b_sv b) s); [|exact Hg].
+  unfold flush. cbn [b_sv].
+  destruct (bhandle_cost c 0 b s Hg) as [U _].
+  assert (Hg1 : good_sv (b_sv (bhandle_spec fx 0 b s c))) by (exact (good_step _ _ _ _ _ Hg (proj1 U))).
+  exact (good_step _ _ _ _ _ Hg1 (proj1 (bpush_buniv s _ Hg1))).
+Qed.
+
 End Poly.
